@@ -246,6 +246,12 @@ def inplace(rc):
                             construct=f"{f.qual} inplace result dropped")
 
 
+
+@rule("C20.defuse", "anchored files: every parameter is read, no value is computed and dropped (generic def-use detectors, triaged hit list)", floor=2)
+def defuse(rc):
+    from . import shared as _sh
+    _sh.defuse_rule(rc, _sh.anchor_files("C20"))
+
 MUTANTS = [
     dict(kind="break", name="predict-paired-index", file=LG, expect="C20.submatrix",
          old="cov_aa = cov[np.ix_(missing_indexes, missing_indexes)]", new="cov_aa = cov[missing_indexes, missing_indexes]"),
